@@ -124,8 +124,8 @@ def getSet (m : List (Nat × List Nat)) (p : Nat) : List Nat :=
   | some x => x.2
   | none => []
 
-def putSet (m : List (Nat × List Nat)) (p : Nat) (s : List Nat) : List (Nat × List Nat) :=
-  if m.any (·.1 == p) then m.map fun x => if x.1 == p then (p, s) else x else m ++ [(p, s)]
+/-- `signCount[p] = s` (newest binding first; `getSet` returns the first binding of a key) -/
+def putSet (m : List (Nat × List Nat)) (p : Nat) (s : List Nat) : List (Nat × List Nat) := (p, s) :: m
 
 /-- The loop of getCommitConsensus. `C` is only compared with the number of empty commits (it is bumped once). -/
 def gccLoop (N : Nat) : List CommitMsg → (C : Nat) → (emptyCount : Nat) → (emptyCommit : Bool) →
@@ -181,5 +181,19 @@ def sealSignatures (m : ESigs) (order : List Nat) (hasKey : Nat → Bool) (propo
       match ((lookup m e).getD []).find? (fun s => s.proposer == proposer && s.forEmpty == forEmpty && e != proposer) with
       | some s => if hasKey e then some (e, s.sig) else none
       | none => none
+
+/-! ### Histories of messages on one candidate record -/
+
+inductive Msg where
+  | proposal (p : Proposal)
+  | endorse (endorser : Nat) (s : ESig)
+  | commit (m : CommitMsg)
+
+def stepMsg (c : Cand) : Msg → Cand
+  | .proposal p => (newBlockProposal c p).1
+  | .endorse e s => newBlockEndorsement c e s
+  | .commit m => (newBlockCommitment c m).1
+
+def runMsgs (msgs : List Msg) : Cand := msgs.foldl stepMsg {}
 
 end Poly.Model.VBFTCount
